@@ -272,7 +272,7 @@ func New(tp *core.Tape, e *core.Env, sc *WScenario) (*World, error) {
 	w.ctx, w.stop = context.WithCancel(context.Background())
 	go func() { _ = w.TD.Run(w.ctx, w.SD) }()
 	go func() { _ = w.EX.Run(w.ctx, 3) }()
-	http.DefaultTransport = w.Net
+	http.DefaultTransport = &sidecarsim.Router{Next: w.Net}
 
 	rm := kshard.NewReplicasManager(w.CL.Cli, ns, "app.kubernetes.io/name=prometheus", 8080, sc.DeletePVC, lg)
 	opt := &coordinator.Option{MaxHeadSeries: sc.Opt.MaxHeadSeries, MaxProcessSeries: sc.Opt.MaxProcessSeries, MaxShard: sc.Opt.MaxShard, MinShard: sc.Opt.MinShard,
